@@ -38,7 +38,10 @@ def _move(P, g, e, v1, v2, mode):
 def _case(ek, mode=None):
     def fn(P, g):
         e, v1, v2 = mk_edge(P, g, ek)
-        if mode is not None:
+        if mode == "fixedflags":
+            # the reported Jacobian is the derivative of the error whether or not the vertex is marked fixed
+            v1.fixed, v2.fixed = True, True
+        elif mode is not None:
             _move(P, g, e, v1, v2, mode)
         jac = e.calc_jacobians()
         P.check("two_jacobians", len(jac) == 2)
@@ -63,6 +66,6 @@ def cases(tier):
     out = []
     for ek in EDGE_KINDS:
         out.append(Case("%s-%s" % ek, _case(ek), timeout=20, old_timeout=30, validate=2 if tier == "quick" else 6))
-        for mode in ("inplace", "rebind"):
+        for mode in ("inplace", "rebind", "fixedflags"):
             out.append(Case("history-%s-%s-%s" % (mode, ek[0], ek[1]), _case(ek, mode), timeout=20, old_timeout=30, validate=1))
     return out
